@@ -8,7 +8,8 @@
    URL, multi-parameter / valueless / oddly encoded queries), sequential histories, concurrent rounds, the gated
    race, and whole trees after NormalizeURL + DedupeItems + SeencheckItem.
 3. TLC (C08_Mon) judges every call with interval reasoning (what had to be visible / what could be visible).
-The crawl-HQ variant of the seencheck is checked together with the HQ queue protocol (see C15 / HQ harness).
+4. The crawl-HQ variant (hq.SeencheckItem) runs the same histories against a fake HQ seen-store (keyed by the
+   text it is sent, asset -> seed promotion) and is judged by the same monitor.
 """
 import os
 
@@ -30,35 +31,43 @@ def run(ctx):
     ctx.log("exhaustive: %d distinct states" % states)
     ctx.build_harness()
     tpath = os.path.join(ctx.scratch, "c08.ndjson")
+    hpath = os.path.join(ctx.scratch, "c08hq.ndjson")
     if ctx.replay:
-        tpath = ctx.replay
+        parts = [("replay", ctx.replay)]
     else:
         a, b = (600, 25) if quick else (8000, 400)
         ctx.run_bin("unit-verif", ["c08", tpath, str(a), str(b)], timeout=1800)
-    events = vf.read_ndjson(tpath)
-    mon = ctx.validate("C08_Mon", "C08_mon.cfg", tpath, name="mon", timeout=3000, heap="8g")
-    if mon["hwm"] < mon["total"]:
-        raise vf.Inconclusive("C08_Mon stopped at line %d of %d" % (mon["hwm"], mon["total"]))
-    calls = {e["id"]: e for e in events if e["ev"] == "call"}
-    for v in mon["viols"]:
-        e = events[v["l"] - 1]
-        c = calls.get(e.get("id"), {})
-        rp = os.path.join(ctx.scratch, "viol-%d.ndjson" % v["l"])
-        vf.write_ndjson(rp, events[: v["l"]])
-        ctx.report("%s call=%s ret=%s" % (v["why"], {k: c.get(k) for k in ("tag", "nodes")}, e.get("st", e.get("nodes"))), replay_src=rp, tag="hist",
-                   key="%s tag=%s" % (v["why"], c.get("tag", e["ev"])))
+        ctx.run_bin("unit-verif", ["c08hq", hpath, str(a // 2), str(b)], timeout=1800)
+        parts = [("local", tpath), ("hq", hpath)]
+    events = []
+    calls = {}
+    for part, path in parts:
+        evs = vf.read_ndjson(path)
+        events += evs
+        mon = ctx.validate("C08_Mon", "C08_mon.cfg", path, name="mon-" + part, timeout=3000, heap="8g")
+        if mon["hwm"] < mon["total"]:
+            raise vf.Inconclusive("C08_Mon stopped at line %d of %d" % (mon["hwm"], mon["total"]))
+        pcalls = {e["id"]: e for e in evs if e["ev"] == "call"}
+        calls.update({(part, k): v for k, v in pcalls.items()})
+        for v in mon["viols"]:
+            e = evs[v["l"] - 1]
+            c = pcalls.get(e.get("id"), {})
+            rp = os.path.join(ctx.scratch, "viol-%s-%d.ndjson" % (part, v["l"]))
+            vf.write_ndjson(rp, evs[: v["l"]])
+            ctx.report("%s call=%s ret=%s" % (v["why"], {k: c.get(k) for k in ("tag", "nodes")}, e.get("st", e.get("nodes"))), replay_src=rp, tag="hist",
+                       key="%s tag=%s" % (v["why"], c.get("tag", e["ev"])))
     tags = {}
     for c in calls.values():
         tags[c["tag"]] = tags.get(c["tag"], 0) + 1
     canon = {n["c"] for c in calls.values() for n in c["nodes"]}
     ctx.cov.update({
         "states": states, "transitions": trans, "exhaustive": True,
-        "traces_validated_against_impl": 1,
+        "traces_validated_against_impl": len(parts),
         "evaluations": sum(len(c["nodes"]) for c in calls.values()), "distinct_nontrivial": len(canon),
         "rule": "evaluations = node checks against the real LevelDB store; distinct = distinct canonical URLs; calls by kind %s; trees %d" % (tags, sum(1 for e in events if e["ev"] == "tree")),
         "samples": [events[0], events[1]],
     })
     ctx.assumptions += [
         "a seed-type check over a record that is only 'asset' may or may not be skipped (the statement's exception)",
-        "crawl-HQ seencheck is not part of this check",
+        "crawl-HQ variant: the service is a double that keys its seen-store by the text it is sent and answers with the texts it was sent",
     ]
